@@ -84,8 +84,25 @@ func genC07(t *rapid.T, maxDepth int) (*DCase, map[string]bool) {
 	for k := 0; k < nr; k++ {
 		items = append(items, ast.Rule("pattern", nil, g.RuleBody(rapid.IntRange(1, 5).Draw(t, "rbody"))))
 	}
+	items = append(items, ast.Rule("ENDFILE", nil, ast.Block(ast.Print(ast.Str("endfile")))))
 	items = append(items, ast.Rule("END", nil, ast.Block(ast.Print(ast.Str("end")))))
-	c := &DCase{Prog: ast.Prog(items...), Files: []DFile{{Name: "in", Docs: []string{gen.Compact(c07Doc(t))}}}}
+	docs := []string{gen.Compact(c07Doc(t))}
+	if rapid.IntRange(0, 2).Draw(t, "moreroots") == 0 {
+		// further values whose root is not an array: one element on its own, a number, a string
+		// (next and exit leave the rules for that value; its ENDFILE rules still run after next)
+		for k, n := 0, rapid.IntRange(1, 3).Draw(t, "nmore"); k < n; k++ {
+			switch rapid.IntRange(0, 2).Draw(t, "rootkind") {
+			case 0:
+				docs = append(docs, gen.Compact(c07Doc(t).Items[0]))
+			case 1:
+				docs = append(docs, fmt.Sprint(rapid.IntRange(0, 3).Draw(t, "numroot")))
+			default:
+				docs = append(docs, `"ab"`)
+			}
+		}
+		g.Labels["values-with-non-array-roots"] = true
+	}
+	c := &DCase{Prog: ast.Prog(items...), Files: []DFile{{Name: "in", Docs: docs}}}
 	return c, g.Labels
 }
 
